@@ -382,20 +382,54 @@ func runC12(rc *RunCtx) (*Violation, error) {
 		return nil, err
 	}
 	mode := []string{"", "Enabled", "Suspended"}[g.Int(3)]
-	if mode != "" {
-		s := storage.BucketVersioningStatus(mode)
-		if mode == "Suspended" && g.Chance(1, 2) {
-			// leave a versioned object behind before suspending
-			e := storage.BucketVersioningStatusEnabled
-			_ = st.PutBucketVersioningConfiguration(ctx, b, &storage.BucketVersioningConfiguration{Status: &e})
+	h := &history{}
+	// set-up writes (versioning state, objects left behind by earlier states) run as one task before the
+	// clients start; the seed puts are recorded like client writes (they return before any client invokes)
+	seedNull := mode == "Suspended" && g.Chance(1, 2)
+	var seeds []string // "E" = enable versioning, otherwise the body of a put
+	var setupErr error
+	switch {
+	case seedNull:
+		// leave a versioned object behind before suspending: the current version of the key then has a real
+		// version id, possibly with an older null version beneath it
+		if g.Chance(1, 3) {
+			seeds = append(seeds, "[seed-null]")
 		}
-		if err := st.PutBucketVersioningConfiguration(ctx, b, &storage.BucketVersioningConfiguration{Status: &s}); err != nil {
-			return nil, err
+		seeds = append(seeds, "E")
+		if g.Chance(3, 4) {
+			seeds = append(seeds, "[seed-versioned]")
 		}
+	case mode == "" && g.Chance(1, 4):
+		seeds = append(seeds, "[seed]")
+	}
+	setup := rc.S.Go("seed", func(*sim.Task) {
+		for _, sd := range seeds {
+			if sd == "E" {
+				e := storage.BucketVersioningStatusEnabled
+				if setupErr = st.PutBucketVersioningConfiguration(ctx, b, &storage.BucketVersioningConfiguration{Status: &e}); setupErr != nil {
+					return
+				}
+				continue
+			}
+			call := h.invoke()
+			if _, setupErr = st.PutObject(ctx, b, k, nil, strings.NewReader(sd), nil, nil); setupErr != nil {
+				return
+			}
+			h.done(99, appIn{Kind: "put", Data: sd, Offset: -1}, call, appOut{OK: true})
+		}
+		if mode != "" {
+			s := storage.BucketVersioningStatus(mode)
+			setupErr = st.PutBucketVersioningConfiguration(ctx, b, &storage.BucketVersioningConfiguration{Status: &s})
+		}
+	})
+	if err := rc.S.RunTasks(setup); err != nil {
+		return nil, err
+	}
+	if setupErr != nil {
+		return nil, setupErr
 	}
 	n := 2 + g.Int(3)
 	rc.Logf("stack=%s versioning=%q clients=%d", spec.Default, mode, n)
-	h := &history{}
 	var viol *Violation
 	var tasks []*sim.Task
 	for c := 0; c < n; c++ {
